@@ -35,13 +35,23 @@ def toks_of(text):
     return out
 
 
+def _limits():
+    # a preprocessor run on these tiny inputs needs milliseconds of CPU: a run that burns 10 s of CPU time or
+    # 4 GB (runaway #include recursion) is killed and counts as a failed run, independent of machine load
+    import resource
+    resource.setrlimit(resource.RLIMIT_CPU, (10, 10))
+    resource.setrlimit(resource.RLIMIT_AS, (4 << 30, 4 << 30))
+
+
 def run_E(cc, argv, cwd, timeout=20, env=None):
-    try:
-        p = subprocess.run([cc, "-E"] + argv, cwd=cwd, capture_output=True, text=True, timeout=timeout, env=env,
-                           errors="replace")
-        return p.returncode, p.stdout, p.stderr
-    except subprocess.TimeoutExpired:
-        return -99, "", "timeout"
+    for tmo in (timeout, 6 * timeout):
+        try:
+            p = subprocess.run([cc, "-E"] + argv, cwd=cwd, capture_output=True, text=True, timeout=tmo, env=env,
+                               errors="replace", preexec_fn=_limits)
+            return p.returncode, p.stdout, p.stderr
+        except subprocess.TimeoutExpired:
+            continue
+    raise Infra("chibicc -E %s did not finish within %ds" % (" ".join(argv)[-200:], 6 * timeout))
 
 
 def gcc_E(argv, cwd):
@@ -330,6 +340,128 @@ def finish_incl(ctx, tree, jobs):
     return dict(include_scenarios_replayed=total)
 
 
+
+# ------------------------------------------------------- 3. #if expressions
+# hand-checked 64-bit boundary table: (expression, value as Python int modulo 2^64 semantics, unsigned?)
+# every entry was checked against gcc and clang at development time
+M64 = 1 << 64
+BOUNDARY = [
+    ("0x7fffffffffffffff", 2**63 - 1, False), ("0x7fffffffffffffff + 0u", 2**63 - 1, True),
+    ("-0x7fffffffffffffff - 1", -2**63, False), ("0xffffffffffffffff", 2**64 - 1, True),
+    ("18446744073709551615u", 2**64 - 1, True), ("-1 + 0u", 2**64 - 1, True), ("0u - 1", 2**64 - 1, True),
+    ("~0u", 2**64 - 1, True), ("~0", -1, False), ("2147483647 + 1", 2**31, False), ("-2147483647 - 2", -2**31 - 1, False),
+    ("0xffffffff + 1", 2**32, False), ("4294967295 * 2", 2**33 - 2, False), ("0x80000000", 2**31, False),
+    ("65536 * 65536", 2**32, False), ("1 << 40", 2**40, False), ("1u << 63", 2**63, True), ("(1 << 62) >> 61", 2, False),
+    ("0xffffffffffffffff >> 63", 1, True), ("0x7fffffffffffffff / 3", (2**63 - 1) // 3, False),
+    ("0xffffffffffffffff / 2", 2**63 - 1, True), ("0xffffffffffffffff % 10", 5, True),
+    ("-1 < 0u", 0, False), ("-1 > 0u", 1, False), ("-1 + 0 < 0", 1, False), ("-1 < 0", 1, False),
+    ("0x8000000000000000 > 0", 1, False), ("9223372036854775807 > -9223372036854775807", 1, False),
+    ("(0 ? -1 : 0u) > 0", 0, False), ("(1 ? -1 : 0u) > 0", 1, False), ("-9223372036854775807 - 1 < 0", 1, False),
+    ("4294967296 == 0", 0, False), ("4294967296 > 4294967295", 1, False), ("(2147483647 + 1) < 0", 0, False),
+    ("3000000000 > 0", 1, False), ("-3000000000 < 0", 1, False), ("0x100000000 / 0x10000 == 0x10000", 1, False),
+    ("(-7) / 2", -3, False), ("(-7) % 2", -1, False), ("7 / (-2)", -3, False), ("1 ? 2 : (1/0)", 2, False),
+    ("0 && (1/0)", 0, False), ("1 || (1/0)", 1, False), ("!0x100000000", 0, False), ("0x100000000 && 1", 1, False),
+]
+
+
+def ifexpr_case_text(k, e, v, u):
+    val = "(%d)" % v if v < 2**63 else "%du" % v
+    return ["#if (%s) == %s" % (e, val), "E%d v" % k, "#else", "E%d x" % k, "#endif",
+            "#if ((%s) - (%s) - 1) < 0" % (e, e), "E%d s" % k, "#else", "E%d u" % k, "#endif"]
+
+
+def replay_ifexpr(ctx, tree, exprs, tag, batch=100):
+    """exprs: list of (text, value, unsigned)"""
+    d = ctx.tmp("ifexpr-" + tag)
+    cc = tree + "/chibicc"
+    pre = ["#define X 3", "#define Y (-2)"]
+
+    def text(idx):
+        out = list(pre)
+        for k in idx:
+            out += ifexpr_case_text(k, *exprs[k])
+        return "\n".join(out) + "\nEND\n"
+
+    def parse(tokens):
+        r = {}
+        for a, b in zip(tokens, tokens[1:]):
+            if a.startswith("E") and a[1:].isdigit():
+                r.setdefault(int(a[1:]), []).append(b)
+        return r
+
+    def run_batch(idx):
+        f = "%s/e%d_%d.c" % (d, idx[0], len(idx))
+        open(f, "w").write(text(idx))
+        rc, out, err = run_E(cc, [f], d)
+        os.unlink(f)
+        tk = toks_of(out)
+        if rc == 0 and tk[-1:] == ["END"]:
+            r = parse(tk)
+            return [(k, 0, r.get(k, []), "") for k in idx]
+        if len(idx) == 1:
+            return [(idx[0], rc, [], err[-300:])]
+        h = len(idx) // 2
+        return run_batch(idx[:h]) + run_batch(idx[h:])
+
+    chunks = [list(range(j, min(j + batch, len(exprs)))) for j in range(0, len(exprs), batch)]
+    for res in vt.pmap(run_batch, chunks):
+        for k, rc, got, err in res:
+            e, v, u = exprs[k]
+            exp = ["v", "u" if u else "s"]
+            ctx.note_case("ifexpr:" + e, nontrivial=True)
+            if rc == 0 and got == exp:
+                continue
+            f = "%s/g%d.c" % (d, k)
+            open(f, "w").write("\n".join(pre + ifexpr_case_text(k, e, v, u)) + "\n")
+            grc, gg = gcc_E([f], d)
+            os.unlink(f)
+            if grc != 0 or gg != ["E%d" % k, "v", "E%d" % k, exp[1]]:
+                ctx.oracle_disagreements += 1
+                continue
+            if rc != 0:
+                cls = "rejected"
+            elif got[:1] != ["v"]:
+                cls = "value"
+            else:
+                cls = "signedness"
+            neg = "neg" if (v < 0 or "-" in e or "~" in e) else "nonneg"
+            ctx.report("ifexpr:%s:%s:%s:%s" % (tag, cls, "unsigned" if u else "signed", neg),
+                       "#if %s: expected value %d (%s), chibicc says %s %s" % (e, v, "uintmax_t" if u else "intmax_t", got, err),
+                       case=dict(kind="ifexpr", tag=tag, expr=[e, v, u]))
+    ctx.cov["traces_validated_against_impl"] += len(exprs)
+
+
+def submit_ifexpr(ctx, pool):
+    out = os.path.join(ctx.scratch, "ifexpr.ndjson")
+    cfg = ctx.cfg("pp", "IfExpr_gen.cfg", Seed=ctx.seed, Stride=60 if ctx.quick else 2)
+    return dict(out=out, gen=pool.submit(ctx.tlc, "pp", "IfExpr", cfg, env=dict(OUT=out), workers=2 if ctx.quick else 4, timeout=1500))
+
+
+def finish_ifexpr(ctx, tree, job):
+    g = job["gen"].result()
+    if not g.ok:
+        raise Infra("IfExpr generation failed: " + g.trace_text()[:800])
+    rows = vt.read_ndjson(job["out"])
+    if len(rows) < 500:
+        raise Infra("IfExpr generator wrote only %d expressions" % len(rows))
+    rows.sort(key=lambda r: r["e"])
+    # canary: the C07 constant folder must get negative int constants right (defect D10, owned by C07);
+    # while it does not, nearly every expression of the family is affected and the family is not judged
+    d = ctx.tmp("canary")
+    open(d + "/c.c", "w").write("#if -1 < 0\nOK1\n#endif\n#if (1 - 2) < 0\nOK2\n#endif\n")
+    rc, out, err = run_E(tree + "/chibicc", [d + "/c.c"], d)
+    if rc != 0 or toks_of(out) != ["OK1", "OK2"]:
+        ctx.report("ifexpr:canary:negative-int-constant", "#if -1 < 0 / #if (1 - 2) < 0 are not both true: %s %s" % (toks_of(out), err[-200:]),
+                   case=dict(kind="ifexpr", tag="canary", expr=["-1 < 0", 1, False]))
+        ctx.assumptions.append("#if expression family NOT judged in this run: the constant folder mis-evaluates negative int constants (D10)")
+        return dict(if_expressions=0, if_family_skipped=True)
+    exprs = [(r["e"], r["v"], r["u"]) for r in rows]
+    ctx.sample(dict(kind="#if expression", expr=exprs[len(exprs) // 2][0], value=exprs[len(exprs) // 2][1], unsigned=exprs[len(exprs) // 2][2]))
+    replay_ifexpr(ctx, tree, exprs, "gen")
+    replay_ifexpr(ctx, tree, [(e, v if not u else v % M64, u) for e, v, u in BOUNDARY], "boundary")
+    return dict(if_expressions=len(exprs), if_boundary_expressions=len(BOUNDARY))
+
+
 # -------------------------------------------------------------------- run
 def run(ctx):
     import concurrent.futures
@@ -339,10 +471,13 @@ def run(ctx):
     with concurrent.futures.ThreadPoolExecutor(6) as pool:
         jc = submit_cond(ctx, pool)
         ji = submit_incl(ctx, pool)
+        je = submit_ifexpr(ctx, pool)
         extra.update(finish_cond(ctx, tree, jc))
         ctx.phase("cond done")
         extra.update(finish_incl(ctx, tree, ji))
         ctx.phase("include done")
+        extra.update(finish_ifexpr(ctx, tree, je))
+        ctx.phase("ifexpr done")
     ctx.assumptions += ["Level I models (CondIncl.tla, Include.tla) are hand transcriptions of preprocess.c/main.c; replay judges the real binary",
                         "directive sequences are well nested (ill-nested input is C13's)"]
     return ctx.finish(
@@ -356,6 +491,8 @@ def replay(ctx, path):
     tree = ctx.build()
     if c.get("kind") == "cond":
         replay_cond(ctx, tree, [c["case"]])
+    elif c.get("kind") == "ifexpr":
+        replay_ifexpr(ctx, tree, [tuple(c["expr"])], c["tag"])
     elif c.get("kind") == "incl":
         replay_incl(ctx, tree, [c["beh"]])
     elif c.get("kind") == "tlc":
